@@ -216,3 +216,15 @@ def behav_stage(seed, tier):
                              for s in c.subjects}
         return r
     return cached("behav", seed, tier, compute, lockname="cargo")
+
+
+# ---------------------------------------------------------------- probe stage (accept / reject)
+
+def probe_stage(seed, tier):
+    def compute():
+        import probes
+        import behav
+        lean_stage(seed, tier)
+        ps = probes.ProbeSet(seed, tier).build()
+        return probes.run_probes(ps, WORK, behav.ETMODEL, log=log)
+    return cached("probes", seed, tier, compute, lockname="cargo")
